@@ -177,3 +177,32 @@ def int_domain_ok(g, approx_k=None):
     n, es = g
     S = sum(w for _, _, w in es)
     return (len(es) + 4) * S < 2 ** 31 - 1
+
+
+# --------------------------------------------------------------------------------------------------------------------
+# long single-thread call histories (state that survives between calls: stamps, cached buffers, counters)
+# --------------------------------------------------------------------------------------------------------------------
+def history_plan(ncalls):
+    """-> (fresh, private): dicts call number (1-based) -> number of vertices.  `fresh`: at the call numbers where a narrow counter would wrap
+    (2^8, 2^15, 2^16, 2*2^16 and their neighbours) the call runs on a graph LARGER than any before it (vertices never touched so far);
+    `private`: calls 10..40 use private high vertex ranges that are touched again only exactly 2^8, 2^15 and 2^16 calls later (a stale mark of a
+    stamp-based 'visited' optimisation would then equal the current stamp).  All other calls are meant to use tiny graphs (n <= ~12)."""
+    wraps = [1 << 8, 1 << 15, 1 << 16, 2 << 16]
+    fresh, big = {}, 40
+    for w in wraps:
+        for d in (-1, 0, 1, 2):
+            if 1 <= w + d <= ncalls: big += 3; fresh[w + d] = big
+    private = {}
+    for s in range(10, 41):
+        for w in [0] + wraps[:3]:
+            if s + w <= ncalls: private[s + w] = 300 + 7 * s
+    return fresh, private
+
+
+def path_graph(n, w=1):
+    return (n, [(i, i + 1, w) for i in range(n - 1)])
+
+
+def private_graph(n, w=1):
+    """touches only the vertices 0, n-3, n-2, n-1"""
+    return (n, [(0, n - 3, w), (n - 3, n - 2, w), (n - 2, n - 1, w)])
